@@ -735,7 +735,8 @@ def _maxmin(ctx):
                 A.req(f"maxmin: column {role} of .ext_x is `x` at the position of the row {rn}", None, fn, show(absc))
                 continue
             pos = absc[2]
-            axis1 = lambda c: (len(c[2]) == 2 and c[2][1] == ("c", 1) and not c[3]) or (len(c[2]) == 1 and c[3] == (("axis", ("c", 1)),))  # noqa
+            axis1 = lambda c: (len(c[2]) == 2 and c[2][1] in (("c", 1), ("c", -1)) and not c[3]) or \
+                (len(c[2]) == 1 and c[3] in ((("axis", ("c", 1)),), (("axis", ("c", -1)),)))  # noqa  (response is 2-D: axis -1 is axis 1)
             good = pos[0] == "call" and pos[1] == nanarg and pos[2][:1] == (R,) and axis1(pos)
             bad = pos[0] == "call" and (pos[1] in plain or pos[1] in ("np.nanargmax", "np.nanargmin", "np.argmax", "np.argmin", ".argmax", ".argmin"))
             A.req(f"maxmin: the abscissa of the row {rn} is `x` at {nanarg}(response, axis=1) - NaN-aware, first occurrence on ties", good if (good or bad) else None,
